@@ -298,6 +298,178 @@ theorem revoked_blocks (g : G) (rs : List Req) (hfresh : ∀ r ∈ rs, r.fresh) 
     ⟨rfl, fun _ => by rw [hjfresh.1]; omega, by rw [hjfresh.2.2]; simp⟩
   exact ⟨rj', h1, h2.2.2⟩
 
+/-! ## 3b. linked CA: the same guarantee where the tables live at the linked CA service -/
+
+theorem lstep_inp (g : G) (r : Req) : (lstep g r).2.inp = r.inp := by
+  unfold lstep lstepRevoke stepRenew
+  (repeat' split) <;> simp
+
+/-- what a step of a linked CA can do to the service's tables: nothing, or insert-if-absent at this request's key -/
+theorem lstep_tables (g : G) (r : Req) :
+    ((lstep g r).1 = g ∧ (lstep g r).2.stored = r.stored) ∨
+    ((lstep g r).1 = g.setTable r.inp.kind.isSSH (casNil (g.table r.inp.kind.isSSH) r.inp.key r.inp.tag).1 ∧
+      (lstep g r).2.stored = true) := by
+  unfold lstep
+  split
+  · left; simp
+  · split
+    · unfold lstepRevoke
+      split
+      · left; simp
+      · split
+        · left; simp
+        · right; simp
+        · right; simp
+      · left; split <;> (try split) <;> simp
+      · left; simp
+    · left
+      unfold stepRenew
+      split <;> (try split) <;> (try split) <;> simp
+
+theorem lstep_get_mono (g : G) (r : Req) (b : Bool) (k : Str) (v : Nat) :
+    get (g.table b) k = some v → get ((lstep g r).1.table b) k = some v := by
+  intro h
+  rcases lstep_tables g r with ⟨hg, _⟩ | ⟨hg, _⟩
+  · rw [hg]; exact h
+  · rw [hg, table_setTable]
+    split
+    · rename_i hb; subst hb; exact casNil_mono _ _ _ _ _ h
+    · exact h
+
+theorem lexec_get_mono (s : G × List Req) (e : Ev) (b : Bool) (k : Str) (v : Nat) :
+    get (s.1.table b) k = some v → get ((lmachine.exec s e).1.table b) k = some v := by
+  intro h
+  cases e with
+  | restart now => exact h
+  | step t =>
+    simp only [Machine.exec, lmachine]
+    cases hr : s.2[t]? with
+    | none => exact h
+    | some r => exact lstep_get_mono s.1 r b k v h
+
+/-- **linked_record_immutable.** At the linked CA service too, a revocation record stays and stays unchanged. -/
+theorem linked_record_immutable (s : G × List Req) (evs : List Ev) (b : Bool) (k : Str) (v : Nat) :
+    get (s.1.table b) k = some v → get ((lmachine.run s evs).1.table b) k = some v :=
+  fun h => Machine.run_inv lmachine (fun s => get (s.1.table b) k = some v)
+    (fun s e h => lexec_get_mono s e b k v h) evs s h
+
+theorem lhas_run_mono (s : G × List Req) (evs : List Ev) (b : Bool) (k : Str) :
+    has (s.1.table b) k = true → has ((lmachine.run s evs).1.table b) k = true := by
+  unfold has
+  cases h : get (s.1.table b) k with
+  | none => simp
+  | some v => intro _; rw [linked_record_immutable s evs b k v h]; rfl
+
+theorem lloc_step (g : G) (r : Req) : Loc r → Loc (lstep g r).2 := by
+  unfold Loc lstep lstepRevoke stepRenew
+  intro ⟨a, b, c, d⟩
+  (repeat' split) <;> simp_all
+
+def LRec (s : G × List Req) : Prop :=
+  ∀ r ∈ s.2, Loc r ∧ (r.stored = true → has (s.1.table r.inp.kind.isSSH) r.inp.key = true)
+
+theorem lrec_exec (s : G × List Req) (e : Ev) : LRec s → LRec (lmachine.exec s e) := by
+  intro h
+  cases e with
+  | restart now =>
+    simp only [Machine.exec, lmachine, LRec, restartG]
+    intro r hr
+    rcases List.mem_map.1 hr with ⟨r', hr', rfl⟩
+    have hs : (restartL r').stored = r'.stored := by unfold restartL; split <;> simp
+    rw [restartL_inp, hs]
+    exact ⟨loc_restart r' (h r' hr').1, (h r' hr').2⟩
+  | step t =>
+    simp only [Machine.exec, lmachine]
+    cases hr : s.2[t]? with
+    | none => exact h
+    | some r =>
+      show LRec ((lstep s.1 r).1, s.2.set t (lstep s.1 r).2)
+      unfold LRec; dsimp only
+      have hmem := mem_of_getElem? _ _ _ hr
+      refine forall_set (fun y => Loc y ∧ (y.stored = true → has ((lstep s.1 r).1.table y.inp.kind.isSSH) y.inp.key = true))
+        s.2 t _ ?_ ?_
+      · intro y hy
+        refine ⟨(h y hy).1, fun hst => ?_⟩
+        have := (h y hy).2 hst
+        unfold has at this ⊢
+        cases hg : get (s.1.table y.inp.kind.isSSH) y.inp.key with
+        | none => rw [hg] at this; cases this
+        | some v => rw [lstep_get_mono s.1 r _ _ v hg]; rfl
+      · refine ⟨lloc_step s.1 r (h r hmem).1, ?_⟩
+        rw [lstep_inp]
+        rcases lstep_tables s.1 r with ⟨hg, hst⟩ | ⟨hg, _⟩
+        · rw [hg, hst]; exact (h r hmem).2
+        · intro _; rw [hg, table_setTable]; simp [has_casNil_same]
+
+/-- **linked_ack_implies_stored.** Linked CA, every history (interleavings, restarts, RPC faults): a revocation that was
+    answered with success is recorded at the linked CA service — the place the renewal gates ask. -/
+theorem linked_ack_implies_stored (g : G) (rs : List Req) (hfresh : ∀ r ∈ rs, r.fresh) (evs : List Ev)
+    (r : Req) (hr : r ∈ (lmachine.run (g, rs) evs).2) (hok : r.out = .ok) :
+    has ((lmachine.run (g, rs) evs).1.table r.inp.kind.isSSH) r.inp.key = true := by
+  have := Machine.run_inv lmachine LRec (fun s e h => lrec_exec s e h) evs (g, rs) (fun r hr => by
+    obtain ⟨h1, h2, h3⟩ := hfresh r hr
+    unfold Loc; simp [h1, h2, h3]) r hr
+  exact this.2 (this.1.1 hok)
+
+theorem lblocked_step (g : G) (inp : Inp) (r : Req) (hk : inp.kind.isRevoke = false)
+    (hh : has (g.table inp.kind.isSSH) inp.key = true) : Blocked inp r → Blocked inp (lstep g r).2 := by
+  intro hb
+  have : lstep g r = step g r := by
+    obtain ⟨hi, _, _⟩ := hb
+    unfold lstep step; rw [hi, hk]; simp
+  rw [this]; exact blocked_step g inp r hk hh hb
+
+theorem lthread_inv (P : Req → Prop) (b : Bool) (k : Str)
+    (hstep : ∀ g r, has (g.table b) k = true → P r → P (lstep g r).2)
+    (hrestart : ∀ r, P r → P (restartL r))
+    (s : G × List Req) (evs : List Ev) (j : Nat) (rj : Req)
+    (hh : has (s.1.table b) k = true) (hj : s.2[j]? = some rj) (hP : P rj) :
+    ∃ rj', (lmachine.run s evs).2[j]? = some rj' ∧ P rj' := by
+  have := Machine.run_inv lmachine
+    (fun s => has (s.1.table b) k = true ∧ ∃ rj', s.2[j]? = some rj' ∧ P rj')
+    (fun s e ⟨hh, rj', hj, hP⟩ => by
+      refine ⟨by simpa [Machine.run] using lhas_run_mono s [e] b k hh, ?_⟩
+      rw [Machine.exec_getElem?]
+      cases e with
+      | restart now => exact ⟨restartL rj', by simp [hj, lmachine], hrestart rj' hP⟩
+      | step t =>
+        by_cases htj : t = j
+        · exact ⟨(lstep s.1 rj').2, by simp [htj, hj, lmachine], hstep s.1 rj' hh hP⟩
+        · exact ⟨rj', by simp [htj, hj], hP⟩)
+    evs s ⟨hh, rj, hj, hP⟩
+  exact this.2
+
+/-- **linked_revoked_blocks.** `revoked_blocks` for a linked CA: after any history in which a revocation of key `k` was
+    answered with success, every renewal / rekey of the same table and key that starts later is not allowed, whatever
+    follows (interleavings, restarts of the CA, RPC faults, including a fault of its own status lookup). -/
+theorem linked_revoked_blocks (g : G) (rs : List Req) (hfresh : ∀ r ∈ rs, r.fresh) (evs1 evs2 : List Ev)
+    (ri rj : Req) (j : Nat)
+    (hri : ri ∈ (lmachine.run (g, rs) evs1).2) (hok : ri.out = .ok)
+    (hrj : (lmachine.run (g, rs) evs1).2[j]? = some rj) (hjfresh : rj.fresh)
+    (hjk : rj.inp.kind.isRevoke = false) (hssh : rj.inp.kind.isSSH = ri.inp.kind.isSSH)
+    (hkey : rj.inp.key = ri.inp.key) :
+    ∃ rj', (lmachine.run (g, rs) (evs1 ++ evs2)).2[j]? = some rj' ∧ rj'.out ≠ .allowed := by
+  have hst := linked_ack_implies_stored g rs hfresh evs1 ri hri hok
+  rw [← hssh, ← hkey] at hst
+  rw [Machine.run_append]
+  obtain ⟨rj', h1, h2⟩ := lthread_inv (Blocked rj.inp) rj.inp.kind.isSSH rj.inp.key
+    (fun g r hh hb => lblocked_step g rj.inp r hjk hh hb) (blocked_restart rj.inp)
+    (lmachine.run (g, rs) evs1) evs2 j rj hst hrj
+    ⟨rfl, fun _ => by rw [hjfresh.1]; omega, by rw [hjfresh.2.2]; simp⟩
+  exact ⟨rj', h1, h2.2.2⟩
+
+/-- what the round-5 seed did (an RPC error answered with success after a write to the *local* table) is excluded:
+    a revocation whose RPC was not performed is never answered with success -/
+theorem linked_fault_not_acknowledged (g : G) (r : Req) (hf : r.fresh) (hk : r.inp.kind.isRevoke = true)
+    (hfault : r.inp.fault = .before) :
+    (lstep (lstep g r).1 (lstep g r).2).2.out = .err ∧ (lstep (lstep g r).1 (lstep g r).2).1 = g := by
+  obtain ⟨h1, h2, h3⟩ := hf
+  cases r with
+  | mk inp pc stored out =>
+    simp only at h1 h2 h3 hk hfault
+    subst h1 h2 h3
+    simp [lstep, lstepRevoke, hk, hfault]
+
 /-- **second_revoke.** If key `k` is already in the table (record `v`), a revocation request `j`
     for `k` that starts afterwards is never answered with success and never stores anything,
     and the original record is still `v` — whatever else happens (interleavings, restarts,
